@@ -495,12 +495,28 @@ func (e *explanation) matches(sc *scope, o *observed, fr framing) bool {
 	return matchMat(x.mat, o) == ""
 }
 
+// knownClasses: finding classes currently listed as `known:` for C09 (set by the parent from KNOWN_FINDINGS.txt).
+// A disagreement is first explained with the deviant rules of listed findings only; the rules of findings that
+// are not (or no longer) listed are tried afterwards, so that a regression of a fixed defect is reported under its
+// precise class and is never absorbed - nor is a fixed rule credited for a case a listed one explains.
+var knownClasses = map[string]bool{}
+
 // explain searches the smallest set of deviant rules under which reference and implementation agree.
 func (sc *scope) explain(o *observed, fr framing) *explanation {
+	if e := sc.explainWith(o, fr, true); e != nil {
+		return e
+	}
+	return sc.explainWith(o, fr, false)
+}
+
+func (sc *scope) explainWith(o *observed, fr framing, listedOnly bool) *explanation {
 	var cand []int
 	for i := range toggles {
 		t := &toggles[i]
 		if (t.metric && sc.u.kind != "metric") || (t.logq && sc.u.kind != "log") {
+			continue
+		}
+		if listedOnly && !knownClasses[t.class] {
 			continue
 		}
 		if t.rewrite != nil {
